@@ -16,6 +16,11 @@ def show(n, ind=0, out=None):
             show(x, ind)
 
 if __name__ == '__main__':
+    if sys.argv[1].startswith('@'):
+        import os
+        sys.path.insert(0, os.path.dirname(os.path.dirname(os.path.abspath(__file__))))
+        from verif.core import facts_dir
+        sys.argv[1] = facts_dir(sys.argv[1][1:] or 'default')
     d = json.load(open(f'{sys.argv[1]}/{sys.argv[2]}.json'))
     key = 'mir' if '--mir' in sys.argv else 'bodies'
     for b in d[key]:
